@@ -110,6 +110,14 @@ theorem View.uncheckedOK (v : View ν α) : v.WF → UncheckedOK v := by
       · simp only [hi, if_true, Outcome.ok.injEq, Option.some.injEq] at this
         simp [hi, this, hc]
       · simp [hi] at this
+  | matrixOf s r cn ih =>
+    intro hw idx c hin hc
+    simp only [View.WF] at hw
+    rw [matrixOf_lens s r cn hw.2.1] at hin
+    have hl := inBounds_length hin
+    simp only [lens_length, hw.2.1] at hl
+    simp only [View.getUnchecked, pair_of_length_two hl]
+    exact ih hw.1 _ c hin hc
   | range s rs ih =>
     intro hw idx c hin hc
     simp only [View.WF] at hw
